@@ -1,6 +1,7 @@
 package main
 
 import (
+	"regexp"
 	"fmt"
 	"go/types"
 	"math/big"
@@ -622,6 +623,25 @@ func (ex *Exec) evalCall(e *Expr, env *Env) Val {
 				unsup("contract: same() needs slices or strings")
 			}
 			return ex.boolV(ts.And(ts.Eq(x.Base, y.Base), ts.Eq(x.Off, y.Off), ts.Eq(x.Len, y.Len)))
+		case "isfunc":
+			// isfunc(x, "name"): the function value x is the named function or method expression (e.g. "(*encoder).encodeString")
+			v := ex.eval1(args[0], env)
+			if args[1].K != EStr {
+				unsup("contract: isfunc(x, \"name\")")
+			}
+			cv, ok := v.(ClosureV)
+			if !ok {
+				unsup("contract: isfunc of %T (only statically known function values)", v)
+			}
+			fn, _ := cv.Fn.(*ssa.Function)
+			if fn == nil {
+				unsup("contract: isfunc of an unknown function value")
+			}
+			n := relName(fn)
+			n = strings.TrimSuffix(strings.TrimSuffix(n, "$thunk"), "$bound")
+			// synthetic wrappers print the receiver type with its package path: (*path/pkg.T).m -> (*T).m
+			n = recvPathRE.ReplaceAllString(n, "($1$2)")
+			return ex.boolV(ts.Bool(n == args[1].Name))
 		case "keyof":
 			// keyof(x): the identity under which a map with keys of x's type stores x (compare with `forall kid ref`)
 			v := ex.eval1(args[0], env)
@@ -813,6 +833,8 @@ func (ex *Exec) convSpec(v Val, t types.Type) Val {
 }
 
 // pureCall: a Go function used inside a specification stands for its `pure` abstraction.
+var recvPathRE = regexp.MustCompile(`\((\*?)[^()]*?([A-Za-z0-9_]+)\)`)
+
 func (ex *Exec) pureCall(fn *ssa.Function, recv Val, argEs []*Expr, env *Env) Val {
 	c := ex.prog.ContractOf(fn)
 	if c == nil || !c.Pure {
